@@ -494,6 +494,7 @@ class FnTranslator:
         s.geps = []             # (result name, struct type name, first struct index) for layout guards
         s.throws = 0
         s.loop_lines = {}
+        s.loop_label_of = {}
         s.cnames = {}
         s.nomention = False
         s.curblk = None
@@ -676,6 +677,8 @@ class FnTranslator:
         keep = set(s.opts.get('_keep_idents') or ())
         for moves in phis.values():
             for dst, _ in moves: keep.add(dst)
+        for c_, sl_ in s.allocas.items():           # iterator slots of range-for loops: contracts name them through BEGIN_/END_ macros
+            if re.fullmatch(r'v___(begin|end)\d*', c_): keep.add(c_); keep.add(sl_)
         occ = collections.defaultdict(set); init_line = {}
         for b, lines in code.items():
             for i, ln in enumerate(lines):
@@ -782,8 +785,14 @@ class FnTranslator:
             if b not in blocks or b in done: continue
             if b in s.loops and b != cur_header:
                 lb = s.loops[b] & blocks
-                fname = s.opts.get('_short', {}).get(s.fn.name, san(s.fn.name)); hl = s.blabel(b)
-                out.append('L_%s_pre: ;' % hl)
+                fname = s.opts.get('_short', {}).get(s.fn.name, san(s.fn.name)); hl = s.loop_label(b)
+                # range-for loops: stable names for the iterator slots compared in the loop header
+                hdr_txt = ' '.join(re.sub(r'/\*.*?\*/', '', x) for x in code[b])
+                for kind in ('begin', 'end'):
+                    ids = sorted(set(re.findall(r'\b(v___%s\d*)\b' % kind, hdr_txt)))
+                    if len(ids) == 1 and ids[0] in s.allocas:
+                        out.append('#define %s_%s__%s %s' % (kind.upper(), fname, hl, s.allocas[ids[0]]))
+                out.append('L_%s_pre: ;' % s.blabel(b))
                 out.append(ind + 'while (1)')
                 asg = set().union(*[s.assigned[x] for x in lb]) | set().union(*[s.mentions[x] for x in lb])
                 asg = sorted(a for a in asg if a not in s.sunk_names)
@@ -793,7 +802,7 @@ class FnTranslator:
                 out.append(ind + '{')
                 for d in s.sunk.get(b, []): out.append(ind + '  ' + d + '   /* declared in the loop: no occurrence outside it */')
                 out += s.emit_region(order, lb, b, code, depth + 1)
-                out.append('L_%s_cont: ;' % hl)
+                out.append('L_%s_cont: ;' % s.blabel(b))
                 out.append(ind + '}')
                 done |= lb
             else:
@@ -801,6 +810,30 @@ class FnTranslator:
                 for line in code[b]: out.append(ind + line)
                 done.add(b)
         return out
+
+    def loop_label(s, b):
+        """unit.json loop_labels: [[fn, LABEL, source-substring(, ordinal)], ...] names the loops of fn by the text of their source line, so
+        that contracts do not depend on LLVM's block numbering; when a function has labels every loop of it must get exactly one."""
+        if b in s.loop_label_of: return s.loop_label_of[b]
+        labs = [x for x in (s.opts.get('_loop_labels') or []) if x[0] == s.fn.name]
+        if not labs:
+            s.loop_label_of[b] = s.blabel(b); return s.loop_label_of[b]
+        def text(h):
+            fl = s.loop_lines.get(h)
+            if not fl: die("loop label: no source line for loop %s of %s" % (h, s.fn.name))
+            try: return open(fl[0]).read().split('\n')[fl[1] - 1]
+            except Exception: die("loop label: cannot read %s:%d" % fl)
+        hits = []
+        for x in labs:
+            lab, needle = x[1], x[2]; k = x[3] if len(x) > 3 else None
+            cands = sorted([h for h in s.loops if needle in text(h)], key=lambda h: s.loop_lines[h][1])
+            if k is None:
+                if b in cands:
+                    if len(cands) != 1: die("loop label %s of %s: %d loops contain %r (give an ordinal)" % (lab, s.fn.name, len(cands), needle))
+                    hits.append(lab)
+            elif 1 <= k <= len(cands) and cands[k - 1] == b: hits.append(lab)
+        if len(hits) != 1: die("loop label: loop %s of %s (%r) matches %d labels" % (b, s.fn.name, text(b).strip(), len(hits)))
+        s.loop_label_of[b] = 'L_' + hits[0]; return s.loop_label_of[b]
 
     def blabel(s, b):
         return 'B_' + re.sub(r'[^A-Za-z0-9_]', '_', b)
@@ -1132,6 +1165,7 @@ def translate(path, cfg):
     # callees whose body the proofs do not see (stubs, library functions off the verbatim list) may write through any pointer
     opaque = set(stubs) | set(f for f in m.funcs if STD_RE.search(f) and not any(v.search(f) for v in verb))
     opts['_pw'] = ParamWrites(m, opaque, cfg.get('stub_writes'))
+    opts['_loop_labels'] = cfg.get('loop_labels') or []
     if opts.get('sink_locals') and cfg.get('dir'):
         ktxt = ''
         for fn_ in ('contracts.h', 'harness.c'):
@@ -1189,6 +1223,9 @@ def translate(path, cfg):
                     hits += 1
                     if k != index: die("layout guard failed: %s::%s is field %d, contracts expect %d" % (tyname, member, k, index))
         if hits == 0: die("layout guard did not fire: no access to %s::%s in the translated code" % (tyname, member))
+    for x in cfg.get('loop_labels') or []:
+        if x[0] not in fts: die("loop label: function %s not translated" % x[0])
+        if 'L_' + x[1] not in fts[x[0]].loop_label_of.values(): die("loop label did not fire: %s has no loop for %s (%r)" % (x[0], x[1], x[2]))
     # loop guards
     for (fname, header, needle) in cfg.get('loop_guards', []):
         if fname not in fts: die("loop guard: function %s not translated" % fname)
@@ -1250,7 +1287,7 @@ def translate(path, cfg):
         out.append('}')
         out.append('#else\n;\n#endif')
         info['functions'].append({'name': f, 'file': floc[0], 'line': floc[1], 'throws': ft.throws,
-                                  'loops': [{'header': h, 'macro': 'LOOP_%s__%s' % (cn, ft.blabel(h)), 'line': ft.loop_lines.get(h)} for h in ft.loops]})
+                                  'loops': [{'header': h, 'macro': 'LOOP_%s__%s' % (cn, ft.loop_label(h)), 'line': ft.loop_lines.get(h)} for h in ft.loops]})
     info['stubs_used'] = [f for f in protos]
     return '\n'.join(out) + '\n', info
 
